@@ -181,6 +181,8 @@ where
             // Set a drop guard to ensure that the task is deallocated whether
             // or not `output` panics when dropped.
             let _drop_guard = RunOnDrop::new(|| {
+                #[cfg(nexosim_verif)]
+                crate::verif::probe_task(true);
                 dealloc(ptr as *mut u8, Layout::new::<Self>());
             });
 
@@ -268,6 +270,8 @@ where
             // Set a drop guard to ensure that the task is deallocated whether
             // or not the `core` member panics when dropped.
             let _drop_guard = RunOnDrop::new(|| {
+                #[cfg(nexosim_verif)]
+                crate::verif::probe_task(true);
                 dealloc(ptr as *mut u8, Layout::new::<Self>());
             });
 
@@ -346,6 +350,8 @@ where
     // Pin the task with its future to the heap.
     unsafe {
         let layout = Layout::new::<Task<F, S, T>>();
+        #[cfg(nexosim_verif)]
+        crate::verif::probe_task(false);
         let ptr = alloc(layout) as *mut Task<F, S, T>;
         if ptr.is_null() {
             handle_alloc_error(layout);
@@ -403,6 +409,8 @@ where
     // Pin the task with its future to the heap.
     unsafe {
         let layout = Layout::new::<Task<F, S, T>>();
+        #[cfg(nexosim_verif)]
+        crate::verif::probe_task(false);
         let ptr = alloc(layout) as *mut Task<F, S, T>;
         if ptr.is_null() {
             handle_alloc_error(layout);
